@@ -62,7 +62,7 @@ def gen_bstep(rng, doc_keys):
     if k == 'item':
         # item keys are never rewritten: also not the words of the builder's own vocabulary (C15-m3)
         return ('item', rng.choice(doc_keys + ['x-y', 'x_y', 'a-b-c', 'a_b_c', 'wildcard', 'generic_wildcard', 'wc', 'gwc',
-                                               'rec', 'recursive', 'parent']))
+                                               'rec', 'recursive', 'parent', 'a.b', 'k.x-y', 'a[0]']))
     if k == 'idx':
         return ('idx', rng.choice([0, 1, -1, 2]))
     if k == 'slice':
@@ -120,7 +120,38 @@ def gen_logcase(rng):
     return {'doc': doc, 'ops': ops}
 
 
+def gen_oddkey_case(rng):
+    """item keys that look like path syntax: they are keys, never parsed (C15-m5, C15-m3)"""
+    v1, v2 = rng.choice([1, 'x', [1, 2], {'k': 0}]), rng.choice([2, 'y', [3], {'k': 1}])
+    kind = rng.choice(['dot', 'idx', 'word', 'star'])
+    if kind == 'dot':
+        doc, key = {'a.b': v1, 'a': {'b': v2, 'c': 0}}, 'a.b'
+    elif kind == 'idx':
+        doc, key = {'a[0]': v1, 'a': [v2, 5]}, 'a[0]'
+    elif kind == 'word':
+        key = rng.choice(['wildcard', 'generic_wildcard', 'parent', 'rec', 'wc', 'gwc', 'recursive'])
+        doc = {key: v1, 'a': v2, 'b': [v2]}
+    else:
+        doc, key = {'*': v1, 'a': v2, 'b': v2}, '*'
+    if rng.random() < 0.4:
+        doc = rng.choice([{'k': doc}, [doc]])
+        pre = [('ext', 0, ('item', 'k') if isinstance(doc, dict) else ('idx', 0))]
+    else:
+        pre = []
+    import copy as _copy
+    import json as _json
+    doc = _json.loads(_json.dumps(doc))      # the sample values are shared objects: a document is a tree
+    ops = [('new', rng.random() < 0.5)] + pre
+    n = len(ops)
+    ops += [('ext', n - 1, ('item', key)), ('find', n), ('log', n)]
+    if rng.random() < 0.5:
+        ops += [('ext', n, rng.choice([('item', 'k'), ('idx', 0), ('wc', False), ('lwc', False)])), ('find', n + 1)]
+    return {'doc': doc, 'ops': ops}
+
+
 def gen_bcase(rng, log=False):
+    if rng.random() < 0.08:
+        return gen_oddkey_case(rng)
     if log and rng.random() < 0.8:
         return gen_logcase(rng)
     # a document whose keys contain both dashed and underscored spellings
@@ -129,7 +160,7 @@ def gen_bcase(rng, log=False):
                        keys=['a', 'b', 'k', 'x-y', 'x_y', "q'", 'zz', 'c'])
     else:
         base = gen_doc(rng, budget=rng.choice([6, 10, 16]), depth=4,
-                       keys=['a', 'b', 'k', 'x-y', 'x_y', 'a-b-c', 'a_b_c', 'zz', 'c', 'wildcard', 'generic_wildcard', 'parent', 'rec'])
+                       keys=['a', 'b', 'k', 'x-y', 'x_y', 'a-b-c', 'a_b_c', 'zz', 'c', 'wildcard', 'generic_wildcard', 'parent', 'rec', 'a.b', 'a[0]'])
     doc_keys = ['a', 'b', 'k', 'x-y', 'x_y', 'a-b-c', 'zz']
     ops = [('new', rng.random() < 0.5)]
     n = 1
